@@ -418,7 +418,7 @@ func ReadObjectList[T constraints.Unsigned, K BinaryCodec](buf *bytes.Buffer, ne
 // Object
 func WriteObjectListLE[T constraints.Unsigned, K BinaryCodec](buf *bytes.Buffer, values []K) error {
 	// Write the list length prefix
-	if err := binary.Write(buf, binary.BigEndian, T(len(values))); err != nil {
+	if err := binary.Write(buf, binary.LittleEndian, T(len(values))); err != nil {
 		return err
 	}
 
@@ -433,7 +433,7 @@ func WriteObjectListLE[T constraints.Unsigned, K BinaryCodec](buf *bytes.Buffer,
 
 func ReadObjectListLE[T constraints.Unsigned, K BinaryCodec](buf *bytes.Buffer, newFn func() K) ([]K, error) {
 	var t T
-	if err := binary.Read(buf, binary.BigEndian, &t); err != nil {
+	if err := binary.Read(buf, binary.LittleEndian, &t); err != nil {
 		return nil, err
 	}
 	count := int(t)
